@@ -28,7 +28,7 @@
    6 layout     backend/computegraph.py:to_func 372-387: idx = 0; for each DE: vshape > 1 -> (idx, idx+vshape),
                 idx += vshape; else idx, idx += 1.
 
-   NOT in this model (guards of C01_partial, classified formally by the booleans below): the NAMES of the variables
+   NOT in this model (guards of C01_full, classified formally by the booleans below): the NAMES of the variables
    of the generated in_edge operator and of the labels (`guard_names`, `guard_labels`): when they clash with user
    names the real code raises or silently computes something else (D22 and relatives); the model computes values
    as if all generated names were fresh. *)
@@ -233,35 +233,26 @@ Definition names_ok (n : net) (v : vid) : bool :=
                                       forallb (fun j => negb (String.eqb x (z ++ "_in" ++ digit_str j))) (seq 0 k)) B) B.
 Definition guard_names (n : net) : bool := forallb (fun e => names_ok n (etgt e)) (nedges n).
 
-(* backend labels of a variable `a` have the shape a or a_v<k> (_generate_unique_label); replace_in_expr substitutes frontend
-   symbols by backend symbols in a non-simultaneous second pass, so an operator must not own both `a` and a name of the
-   shape a_v<k> (otherwise the label of one variable can be taken for the other variable) *)
+(* An operator input `a` with >= 2 sources (same-node producers, plus the in_edge operator if any edge reaches it) is rewritten
+   TEXTUALLY: `replace(eq, a, "(l1+...+lk)")` with the backend labels of the sources, which have the shape a or a_v<k>
+   (_generate_unique_label).  If the operator owns a variable with such a name, label and user variable are one identifier in
+   the rewritten equation (EdgesProofs.label_clash_refuted).  Since fix D80 (replace_in_expr replaces exact sub-trees only)
+   this is the only remaining way for `a` and `a_v<k>` to be confused; inputs with fewer than 2 sources are not rewritten. *)
 Definition guard_labels (n : net) : bool :=
   forallb (fun p : string * list oper =>
     forallb (fun o =>
-      forallb (fun d => negb (existsb (fun d' => is_vk_of (vname d) (vname d')) (ovars o))) (ovars o)) (snd p)) (nnodes n).
+      forallb (fun d =>
+        match vk d with
+        | VInput =>
+            let k := (List.length (producers (fst p) (snd p) (vname d)) +
+                      match in_edges n (fst p, oname o, vname d) with [] => 0 | _ => 1 end)%nat in
+            (k <? 2)%nat || negb (existsb (fun d' => is_vk_of (vname d) (vname d')) (ovars o))
+        | _ => true
+        end) (ovars o)) (snd p)) (nnodes n).
 
-(* the expression parser (backend/parser.py, C05's subject) fails with AttributeError at compile time on some right-hand
-   sides in which a sum-substituted input occurs three times in one product (`1.0*(a+a_v1)**3` is re-associated by sympy and
-   the parser's sub-expression replacement leaves a dangling sum): inputs must have degree <= 2 in every right-hand side *)
-Fixpoint deg_in (a : string) (e : expr) : nat :=
-  match e with
-  | ECst _ => 0
-  | EVar x => if String.eqb x a then 1 else 0
-  | EAdd p q | ESub p q => Nat.max (deg_in a p) (deg_in a q)
-  | EMul p q => deg_in a p + deg_in a q
-  | ENeg p => deg_in a p
-  | EPow p k => k * deg_in a p
-  end.
-Definition guard_parser (n : net) : bool :=
-  forallb (fun p : string * list oper =>
-    forallb (fun o =>
-      forallb (fun d => match vk d with
-                        | VInput => forallb (fun q => (deg_in (vname d) (rhs q) <? 3)%nat) (oeqs o)
-                        | _ => true end) (ovars o)) (snd p)) (nnodes n).
-
-(* guard_d3 is no longer part of the guard: since fix D59 it holds of every network (EdgesProofs.guard_d3_when_fixed) *)
-Definition guard (n : net) : bool := guard_names n && guard_labels n && guard_parser n.
+(* guard_d3 is no longer part of the guard: since fix D59 it holds of every network (EdgesProofs.guard_d3_when_fixed);
+   the former guard_parser (sum-substituted input of degree >= 3, equal coefficients on x^2 and x^3) is gone since fix D80 *)
+Definition guard (n : net) : bool := guard_names n && guard_labels n.
 
 (* ---------------------------------------------------------------------------------------------- harness helpers *)
 (* observed state map: positions pairwise distinct, inside the state vector, exactly the declared state variables *)
